@@ -140,3 +140,11 @@ CLAIMED["C12"] = dict(category=_MC,
          "by an independent scanner; Trace_Format.tla requires formatting to succeed, Parse(out) = Parse(in) (ids, annotations, order), the same comment sequence, the same again after "
          "re-formatting, and idempotence for comment-free text. The formatter fixtures and every policy file in the tree run at the whole grid.",
     note="layout quality is out of scope. A genuine defect found by this check (comments next to a trailing comma were dropped) was repaired in /repo commit fde431f.")
+ENGINES[0]["serves_properties"].append("C06")
+CLAIMED["C06"] = dict(category=_MC,
+    text="Est.tla defines the JSON policy format as a function EstOf of the abstract policy, so TLC emits each generated policy together with its JSON. For 2877 policies and templates "
+         "(every operator and scope form, escapes, several clauses, annotations) the real from_json parses the specification's JSON, and the text-parsed policy is taken through "
+         "to_json/from_json, text->CST->EST->AST, PST, protobuf, and policy-set JSON / PST / protobuf with a template link; Trace_Formats.tla requires every projection (ids, effect, "
+         "annotations, scope constraints, link template id / new id / bindings, structurally equal conditions) to equal the text-parsed one.",
+    note="bounded by the pools of MC_Formats.tla; the abstract-policy-to-text tie is C05's; evaluation equality follows from structural equality (C02).",
+    technique="TLA+ specification of the JSON format (EstOf) + TLC-generated cases replayed through every conversion hop; hop projections validated by TLC (translation-validation flavour)")
